@@ -410,6 +410,12 @@ void reb_collision_search(struct reb_simulation* const r){
     unsigned int collision_resolve_keep_sorted = r->collision_resolve_keep_sorted;
     if (r->integrator == REB_INTEGRATOR_MERCURIUS || r->integrator == REB_INTEGRATOR_TRACE){
         collision_resolve_keep_sorted = 1; // Force keep_sorted for hybrid integrator
+    }else if (collision_resolve_keep_sorted && r->tree_root){
+        // Particles cannot be kept sorted when a tree is used: the tree update reorders the array
+        // anyway and reb_simulation_remove_particle() refuses a sorted removal. Without this fallback a
+        // resolver such as merge has already changed the survivor when the removal is refused.
+        reb_simulation_warning(r, "collision_resolve_keep_sorted is not supported when a tree is used. Particles will not be kept sorted.");
+        collision_resolve_keep_sorted = 0;
     }
 
     int tree_particles_flagged = 0; // Particles removed while a tree exists are only flagged.
